@@ -944,7 +944,7 @@ func main() {
 		k        int
 		cap      int
 	}
-	jobs := []job{{4, 2, 3, 1, 300000}, {4, 3, 3, 1, 300000}} // height 1: operator 2 leads round 1, operator 3 leads round 2
+	jobs := []job{{4, 2, 3, 1, 300000}, {4, 3, 3, 1, 300000}, {4, 4, 3, 1, 150000}} // height 1: operator 2 leads round 1, operator 3 round 2, operator 4 round 3
 	if r.Thorough() {
 		jobs = []job{{4, 2, 3, 1, 6000000}, {4, 3, 3, 1, 6000000}, {4, 4, 3, 1, 3000000}, {4, 1, 3, 1, 3000000}, {7, 2, 2, 0, 2000000}, {7, 3, 2, 0, 2000000}}
 	}
